@@ -159,15 +159,20 @@ func c19BuildSandbox(root string) string {
 	}
 	dir := root
 	for i := 0; i <= c19Levels; i++ {
-		// at every level: a decoy file, and sibling directories with content
+		// at every level: a decoy file and a sibling directory with content; next to
+		// the data dir (where "../../x" and "../../../x" land) a few more names
 		must(os.WriteFile(filepath.Join(dir, fmt.Sprintf("decoy%d.txt", i)), []byte(fmt.Sprintf("decoy at level %d\n%s", i, strings.Repeat("x", 17*i))), 0o644))
-		for _, sib := range []string{"victim", "decoy", "a", "arenas", "fx"} {
-			must(os.MkdirAll(filepath.Join(dir, sib), 0o755))
+		sibs := []string{"victim"}
+		if i >= c19Levels-1 {
+			sibs = []string{"victim", "decoy", "a", "arenas", "fx", "x"}
+		}
+		for _, sib := range sibs {
+			must(os.Mkdir(filepath.Join(dir, sib), 0o755))
 			must(os.WriteFile(filepath.Join(dir, sib, "keep.bin"), []byte(fmt.Sprintf("%s@%d keep me", sib, i)), 0o644))
 		}
 		if i < c19Levels {
 			dir = filepath.Join(dir, fmt.Sprintf("l%d", i+1))
-			must(os.MkdirAll(dir, 0o755))
+			must(os.Mkdir(dir, 0o755))
 		}
 	}
 	must(os.MkdirAll(filepath.Join(root, "abs", "victim"), 0o755))
@@ -331,7 +336,11 @@ func c19Fixture(e *engine.Engine) error {
 }
 
 // close shuts everything down; returns a note if Close misbehaved.
-func (env *c19Env) close() string {
+func (env *c19Env) close() string { return env.closeWithin(30 * time.Second) }
+
+// closeWithin bounds the wait for engine.Close (after a violation the engine
+// may be left with a lock held by the panicking request).
+func (env *c19Env) closeWithin(limit time.Duration) string {
 	note := ""
 	if env.srv != nil && env.srv.taskManager != nil {
 		func() {
@@ -354,8 +363,8 @@ func (env *c19Env) close() string {
 			if err != nil {
 				note = "engine.Close: " + err.Error()
 			}
-		case <-time.After(30 * time.Second):
-			note = "engine.Close did not return within 30s"
+		case <-time.After(limit):
+			note = fmt.Sprintf("engine.Close did not return within %v", limit)
 		}
 		env.eng = nil
 	}
@@ -562,7 +571,7 @@ type c19Resp struct {
 }
 
 // c19Serve runs the request through rootMux -> Recovery -> Logging -> BodyLimit -> Auth -> mux.
-func (env *c19Env) serve(method, target string, body io.Reader, ctxTimeout time.Duration) (*c19Resp, error) {
+func (env *c19Env) serve(method, target string, body io.Reader, ctxTimeout, hangLimit time.Duration) (*c19Resp, error) {
 	req, err := http.NewRequest(method, "http://c19.local"+target, body)
 	if err != nil {
 		return nil, err
@@ -600,7 +609,7 @@ func (env *c19Env) serve(method, target string, body io.Reader, ctxTimeout time.
 	}()
 	select {
 	case <-done:
-	case <-time.After(45 * time.Second):
+	case <-time.After(hangLimit):
 		res.hung = true
 		return res, nil
 	}
